@@ -225,6 +225,9 @@ class ModuleCanon:
 
     def _inlinable(self, fn: ast.FunctionDef) -> bool:
         a = fn.args
+        for dco in fn.decorator_list:
+            if dotted(dco.func if isinstance(dco, ast.Call) else dco) not in ("staticmethod", "classmethod"):
+                return False  # a decorated function is not its body (caches, dispatchers, wrappers)
         if a.vararg or a.kwarg or _is_generator(fn) or isinstance(fn, ast.AsyncFunctionDef):
             return False
         body = strip_docstring(fn.body)
@@ -629,7 +632,15 @@ class _Strip(ast.NodeTransformer):
         self.generic_visit(node)
         if node.value is None:
             return None
+        if isinstance(node.target, ast.Name) and isinstance(node.value, ast.Name) and node.target.id == node.value.id:
+            return None
         return ast.copy_location(ast.Assign(targets=[node.target], value=node.value), node)
+
+    def visit_Assign(self, node):
+        self.generic_visit(node)
+        if len(node.targets) == 1 and isinstance(node.targets[0], ast.Name) and isinstance(node.value, ast.Name) and node.targets[0].id == node.value.id:
+            return None  # x = x (what is left of x = cast(T, x))
+        return node
 
     def visit_Expr(self, node):
         self.generic_visit(node)
@@ -670,6 +681,21 @@ class _Strip(ast.NodeTransformer):
         if isinstance(node.func, ast.Attribute) and node.func.attr == "join" and len(node.args) == 1 and isinstance(node.args[0], ast.ListComp):
             node.args = [ast.GeneratorExp(elt=node.args[0].elt, generators=node.args[0].generators)]
             return node
+        # f(*(a, *b)) -> f(a, *b) ; f(*tuple(g)) / f(*list(g)) -> f(*g)
+        if any(isinstance(a, ast.Starred) for a in node.args):
+            new_args: List[ast.AST] = []
+            for a in node.args:
+                if isinstance(a, ast.Starred) and isinstance(a.value, (ast.Tuple, ast.List)):
+                    new_args.extend(a.value.elts)
+                elif isinstance(a, ast.Starred) and isinstance(a.value, ast.Call) and dotted(a.value.func) in ("tuple", "list") and len(a.value.args) == 1 and not a.value.keywords:
+                    new_args.append(ast.Starred(value=a.value.args[0], ctx=ast.Load()))
+                else:
+                    new_args.append(a)
+            node.args = new_args
+        # set(<generator>) -> set comprehension ; list(<generator>) -> list comprehension
+        if d in ("set", "list") and len(node.args) == 1 and not node.keywords and isinstance(node.args[0], ast.GeneratorExp):
+            g = node.args[0]
+            return ast.copy_location((ast.SetComp if d == "set" else ast.ListComp)(elt=g.elt, generators=g.generators), node)
         # reduce(f, [a, b, c]) -> f(f(a, b), c)
         if d in ("reduce", "functools.reduce") and len(node.args) == 2 and isinstance(node.args[1], (ast.List, ast.Tuple)) and len(node.args[1].elts) >= 2 and not any(isinstance(x, ast.Starred) for x in node.args[1].elts) and isinstance(node.args[0], (ast.Name, ast.Attribute)):
             acc = node.args[1].elts[0]
@@ -1015,6 +1041,30 @@ def _sink_returns(stmts: List[ast.stmt]) -> List[ast.stmt]:
     return out
 
 
+def _hoist_common_tail(stmts: List[ast.stmt]) -> List[ast.stmt]:
+    """both branches of an if/else end with the same statement: it belongs after the if"""
+    out: List[ast.stmt] = []
+    for s in stmts:
+        for field in ("body", "orelse", "finalbody"):
+            v = getattr(s, field, None)
+            if isinstance(v, list) and v and isinstance(v[0], ast.stmt):
+                setattr(s, field, _hoist_common_tail(v))
+        if isinstance(s, ast.Try):
+            for h in s.handlers:
+                h.body = _hoist_common_tail(h.body)
+        tails: List[ast.stmt] = []
+        while isinstance(s, ast.If) and s.orelse and s.body and len(s.body) >= 1 and len(s.orelse) >= 1 and ast.dump(s.body[-1]) == ast.dump(s.orelse[-1]) and isinstance(s.body[-1], (ast.Return, ast.Raise, ast.Assign, ast.Expr, ast.AugAssign)) and (len(s.body) > 1 or len(s.orelse) > 1):
+            # the test must not be affected by... it is evaluated before either way; the tail runs after both
+            tails.insert(0, s.body[-1])
+            s.body = s.body[:-1] or [ast.Pass()]
+            s.orelse = s.orelse[:-1]
+            if len(s.body) == 1 and isinstance(s.body[0], ast.Pass) and s.orelse:
+                s.test, s.body, s.orelse = _negate(s.test), s.orelse, []
+        out.append(s)
+        out.extend(tails)
+    return out
+
+
 def _split_multi_assign_branches(stmts: List[ast.stmt]) -> List[ast.stmt]:
     """if/else whose branches are nothing but independent assignments to the same names: one conditional
     expression per name."""
@@ -1080,9 +1130,12 @@ def _normalise_blocks(stmts: List[ast.stmt], in_loop: bool) -> List[ast.stmt]:
                 test, body, orelse = _negate(test), orelse, []
             if in_loop and orelse and len(orelse) == 1 and isinstance(orelse[0], ast.Continue):
                 orelse = []
-            # polarity: strip a leading `not` by swapping branches (only when both exist)
+            # polarity: strip a leading `not` / a negative comparison by swapping branches (only when both exist)
             if isinstance(test, ast.UnaryOp) and isinstance(test.op, ast.Not) and orelse:
                 test, body, orelse = test.operand, orelse, body
+            if isinstance(test, ast.Compare) and len(test.ops) == 1 and isinstance(test.ops[0], (ast.IsNot, ast.NotEq, ast.NotIn)) and orelse:
+                pos = {ast.IsNot: ast.Is, ast.NotEq: ast.Eq, ast.NotIn: ast.In}[type(test.ops[0])]()
+                test, body, orelse = ast.Compare(left=test.left, ops=[pos], comparators=test.comparators), orelse, body
             # trailing bare `return` / `return None` at the very end is dropped by the caller
             new: ast.stmt = ast.If(test=test, body=body or [ast.Pass()], orelse=orelse)
             # both branches a single assignment to the same simple target / a return: conditional expression
@@ -1355,7 +1408,32 @@ def _coalesce_copies(fn: ast.FunctionDef) -> None:
             break
 
 
+def _is_comp_var(name: str) -> bool:
+    import re as _re
+
+    return bool(_re.fullmatch(r"c\d+_\d+", name))
+
+
+def _rename_comprehension_vars(node: ast.AST, depth: int = 0) -> None:
+    """comprehension variables are scoped to their comprehension: name them by nesting depth and position"""
+    for child in ast.iter_child_nodes(node):
+        if isinstance(child, (ast.ListComp, ast.SetComp, ast.DictComp, ast.GeneratorExp)):
+            names: List[str] = []
+            for g in child.generators:
+                for n in ast.walk(g.target):
+                    if isinstance(n, ast.Name) and n.id not in names:
+                        names.append(n.id)
+            mapping = {nm: f"c{depth}_{i}" for i, nm in enumerate(names)}
+            for n in ast.walk(child):
+                if isinstance(n, ast.Name) and n.id in mapping:
+                    n.id = mapping[n.id]
+            _rename_comprehension_vars(child, depth + 1)
+        else:
+            _rename_comprehension_vars(child, depth)
+
+
 def _alpha_rename(fn: ast.FunctionDef) -> None:
+    _rename_comprehension_vars(fn)
     params = {a.arg for a in ast.walk(fn.args) if isinstance(a, ast.arg)}
     order: List[str] = []
     for n in ast.walk(fn):
@@ -1364,7 +1442,7 @@ def _alpha_rename(fn: ast.FunctionDef) -> None:
 
     def visit(node):
         for child in ast.iter_child_nodes(node):
-            if isinstance(child, ast.Name) and isinstance(child.ctx, ast.Store) and child.id not in params and child.id not in order:
+            if isinstance(child, ast.Name) and isinstance(child.ctx, ast.Store) and child.id not in params and child.id not in order and not _is_comp_var(child.id):
                 order.append(child.id)
             elif isinstance(child, ast.ExceptHandler) and child.name and child.name not in order:
                 order.append(child.name)
@@ -1399,7 +1477,10 @@ def canonical_function(fn: ast.FunctionDef) -> ast.FunctionDef:
         f.body = _fuse_list_builders(f.body)
         f.body = _loops_to_comprehensions(f.body)
         f.body = _sink_returns(f.body)
+        f.body = _hoist_common_tail(f.body)
         _inline_temporaries(f)
+        f = _Strip().visit(f)
+        ast.fix_missing_locations(f)
     _fix_loops(f)
     _coalesce_copies(f)
     f.body = _normalise_blocks(list(f.body), False) or [ast.Pass()]
